@@ -21,6 +21,7 @@ pub fn op_key(op: &Value) -> String {
         if m.get("op").and_then(|v| v.as_str()) == Some("convert_dir_copy") {
             m.insert("op".into(), json!("convert_dir"));
             m.remove("copy_name");
+            m.remove("second_project");
         }
     }
     serde_json::to_string(&o).unwrap()
@@ -536,6 +537,15 @@ pub fn run(tier: &str, seed: u64, replay: Option<String>) -> i32 {
             let mut c = op.clone();
             c["op"] = json!("convert_dir_copy");
             c["copy_name"] = json!(name);
+            cases.push(Case { mode: "fresh_process", job: single_job(&c), env: env_of(1 + rng.next_u64() % 1000, None) });
+        }
+        // ... and so is a copy that also holds a later-sorting working copy with other content,
+        // whichever of the two files was created first
+        for order in ["created_first", "created_last"] {
+            let mut c = op.clone();
+            c["op"] = json!("convert_dir_copy");
+            c["copy_name"] = json!("con copia de trabajo");
+            c["second_project"] = json!(order);
             cases.push(Case { mode: "fresh_process", job: single_job(&c), env: env_of(1 + rng.next_u64() % 1000, None) });
         }
     }
